@@ -340,7 +340,18 @@ def rule_store(R):
                     a_, b_ = peel(sj[2]), peel(sj[3])
                     op_ = sj[1] if a_ == ("param", pw) else {"Ge": "Le", "Le": "Ge", "Lt": "Gt", "Gt": "Lt"}[sj[1]]
                     lab_ = {"Ge": True, "Lt": False}.get(op_)
-                    fl_blocks = [bb_ for bb_, j_, s_ in sw.assigns() if "agg" in s_["rv"] and s_["rv"]["agg"].get("variant") == "Flush"]
+                    # the Flush values that can reach the stored state (not one built to compare against)
+                    stored_locals = set()
+                    if not pure:
+                        for (bb_, j_, dst_, rv_, s_) in sw.stores():
+                            if dst_["proj"] == ["deref"] and "use" in rv_:
+                                pl_ = rv_["use"].get("move") or rv_["use"].get("copy")
+                                if pl_ is not None and not pl_["proj"]:
+                                    stored_locals.add(pl_["l"])
+                    else:
+                        stored_locals.add(0)
+                    fl_blocks = [bb_ for bb_, j_, s_ in sw.assigns() if "agg" in s_["rv"] and s_["rv"]["agg"].get("variant") == "Flush"
+                                 and (not stored_locals or s_["dst"]["l"] in stored_locals)]
                     if lab_ is not None and si["edges"].get(lab_) is not None and fl_blocks and \
                             all(sw.must_pass([0], [fb_], via_edges=[(sbb, si["edges"][lab_])])[0] for fb_ in fl_blocks):
                         okf = True
